@@ -547,6 +547,61 @@ func runC03(env *Env) {
 			rep.Violate("C03-release", cs, fmt.Sprintf("%d of %d instances went wrong, e.g.: %s", bad, instances, firstBad))
 		}
 	}
+	// overlapping activations: eight tokens reach a join with two incoming flows at the same moment (four on each
+	// flow, through two merging exclusive gateways): four releases, every one of them answered, completion
+	{
+		p := &Prog{}
+		p.Node("start", "start")
+		p.Node("par", "P")
+		p.Node("xor", "M1")
+		p.Node("xor", "M2")
+		p.Node("par", "G")
+		p.Node("task", "U")
+		p.Node("end", "end")
+		p.Flow("start", "P", "")
+		for i := 0; i < 8; i++ {
+			p.Flow("P", []string{"M1", "M2"}[i%2], "")
+		}
+		p.Flow("M1", "G", "")
+		p.Flow("M2", "G", "")
+		p.Flow("G", "U", "")
+		p.Flow("U", "end", "")
+		xmlText := p.XML("")
+		rounds := 60
+		if env.Thorough() {
+			rounds = 600
+		}
+		bad, first := 0, ""
+		for r := 0; r < rounds; r++ {
+			defs, err := ParseDefs(xmlText)
+			must(err)
+			in, err := StartInst(defs, InstOpt{})
+			must(err)
+			ok := in.WaitUntil(tmoStep/2, func(l []Ev) bool { return countEv(l, "task", "U") >= 4 })
+			time.Sleep(2 * time.Millisecond)
+			n := countEv(in.Log(), "task", "U")
+			for in.Answer("U", 20*time.Millisecond) {
+			}
+			done := ok && n == 4 && in.WaitCease(tmoStep/2)
+			if !done {
+				bad++
+				if first == "" {
+					first = fmt.Sprintf("round %d: 8 tokens reached the join, it released %d (expected 4), completed %v; log (tail): %s", r, n, done, tailStr(logString(in.Log()), 800))
+				}
+			}
+			in.Close()
+			if bad >= 3 {
+				break
+			}
+		}
+		cs := fmt.Sprintf("eight tokens at once at a join with two incoming flows (overlapping activations), %d fresh instances", rounds)
+		rep.Evaluations++
+		rep.Nontrivial++
+		rep.Count("overlapping_activations")
+		if bad > 0 {
+			rep.Violate("C03-release", cs, fmt.Sprintf("%d instances went wrong, first: %s", bad, first))
+		}
+	}
 	// long histories of one gateway: the same join activated over and over
 	{
 		type ll struct{ n, m, iters int }
